@@ -2,7 +2,7 @@
 # Automated statement-deletion mutants in a scratch lab (never /repo): tools/mutlab.sh <lab-dir> <list-file>
 # list-file lines: <file>:<line>   - the line is replaced by an empty statement; the lab engine is rebuilt; the given checks run.
 LAB=$1; LIST=$2; shift 2
-CHECKS="C01 C02 C03 C04 C05 C06 C15 C16 C17 C19"
+CHECKS=${CHECKS:-"C01 C02 C03 C04 C05 C06 C15 C16 C17 C19"}
 cd /verif
 while IFS=: read -r file line; do
   git -C $LAB/repo checkout -q -- .
